@@ -33,6 +33,10 @@ structure AuxFns (K : Type) where
   absPow0 : K → K
   /-- `a >= gamma` for the closed-over `gamma` is `ge a gamma` -/
   ge : K → K → Bool
+  /-- what `out.assign(res)` = `_lincomb_impl(1, res, 0, res, out)` stores for an entry `v` of
+  `res`: `1 * v + 0 * v` below `THRESHOLD_SMALL = 100` entries (±inf arrives as NaN, finding
+  C01-F3 / C10-F3), the entry itself (BLAS / fallback `copy`) from 100 entries on -/
+  asg : K → K
 
 /-- The additional modelled bodies. `g` = prior given, `ps` = product (power) space. -/
 inductive AuxId
@@ -54,12 +58,10 @@ variable {K : Type} [Add K] [Sub K] [Mul K] [Div K] [Neg K] [OfNat K 0] [OfNat K
 open Stmt Var
 
 /-- The default in-place bridge `out.assign(op.range.element(res))` (`res` already lies in the
-range: `element` returns the same object). `assign` is `space.lincomb(1, res, out=out)`, i.e.
-`_lincomb_impl(1, res, 0, res, out)`, which for fewer than `THRESHOLD_SMALL = 100` entries executes
-`out.data[:] = a * x1.data + b * x2.data` — so an entry ±inf of the result arrives as NaN
-(finding C01-F3; from 100 entries on it is a plain copy, equal on finite values). The model
-follows the small-size path, the one the correspondence exercises. -/
-def bridge (res : Var) : Stmt K := .set out [res] (fun a i => 1 * a 0 i + 0 * a 0 i)
+range: `element` returns the same object). `assign` is `space.lincomb(1, res, out=out)`; what it
+stores per entry depends on the size of the element (`AuxFns.asg`: `1 * v + 0 * v` for fewer
+than 100 entries, a copy otherwise) — both paths are executed by the driver. -/
+def bridge (A : AuxFns K) (res : Var) : Stmt K := .set out [res] (fun a i => A.asg (a 0 i))
 
 def auxProg (F : Fns K) (A : AuxFns K) (P : Par K) : AuxId → Stmt K
   -- PointwiseNorm._abs_pow_ufunc, p == 0.5
@@ -73,42 +75,42 @@ def auxProg (F : Fns K) (A : AuxFns K) (P : Par K) : AuxId → Stmt K
       .set out [x] (fun a i => F.abs (a 0 i)) ;;        -- fi.ufuncs.absolute(out=out)
       .set out [out] (fun a i => F.pow (a 0 i))         -- out.ufuncs.power(p, out=out)
   -- L1Gradient._call : return x.ufuncs.sign()
-  | .gradL1 => .new t1 [x] (fun a i => F.sign (a 0 i)) ;; bridge t1
+  | .gradL1 => .new t1 [x] (fun a i => F.sign (a 0 i)) ;; bridge A t1
   -- L2Gradient._call
   | .gradL2 =>
       .new xnorm [x] (fun a => cst (F.norm (a 0))) ;;   -- norm_of_x = x.norm()
       .ifC xnorm (fun s => A.isZero (s 0))
         (.new t1 [] (fun _ => cst 0))                   -- return self.domain.zero()
         (.new t1 [x, xnorm] (fun a i => (1 / a 1 0) * a 0 i)) ;;   -- return x / norm_of_x
-      bridge t1
+      bridge A t1
   -- KLGradient._call
   | .gradKL false =>
       .new t1 [x] (fun a i => (-1) * 1 / a 0 i) ;;      -- (-1.0) / x : tmp = one; tmp *= -1; tmp / x
       .new t2 [t1] (fun a i => 1 * a 0 i + 1 * 1) ;;    -- … + 1
-      bridge t2
+      bridge A t2
   | .gradKL true =>
       .new t1 [g] (fun a i => (-1) * a 0 i) ;;          -- -functional.prior
       .new t2 [t1, x] (fun a i => a 0 i / a 1 i) ;;     -- … / x
       .new tmp [t2] (fun a i => 1 * a 0 i + 1 * 1) ;;   -- … + 1
-      bridge tmp
+      bridge A tmp
   -- KLCCGradient._call
   | .gradKLCC hasG =>
       .new t1 [x] (fun a i => 1 * (1 * 1) + (-1) * a 0 i) ;;   -- 1 - x
       (if hasG then .new t2 [g, t1] (fun a i => a 0 i / a 1 i)     -- prior / (1 - x)
        else .new t2 [t1] (fun a i => 1 * 1 / a 0 i)) ;;            -- 1.0 / (1 - x)
-      bridge t2
+      bridge A t2
   -- KLCrossEntropyGradient._call (the `raise` leaves `out` untouched)
   | .gradKLCE hasG =>
       (if hasG then
         .new t1 [x, g] (fun a i => a 0 i / a 1 i) ;;    -- x / functional.prior
         .new tmp [t1] (fun a i => A.log (a 0 i))
        else .new tmp [x] (fun a i => A.log (a 0 i))) ;;
-      .ifC tmp A.allFinite (bridge tmp) .skip
+      .ifC tmp A.allFinite (bridge A tmp) .skip
   -- KLCrossEntCCGradient._call
   | .gradKLCECC hasG =>
       .new t1 [x] (fun a i => F.exp (a 0 i)) ;;         -- np.exp(x)
-      (if hasG then .new t2 [g, t1] (fun a i => a 0 i * a 1 i) ;; bridge t2
-       else bridge t1)
+      (if hasG then .new t2 [g, t1] (fun a i => a 0 i * a 1 i) ;; bridge A t2
+       else bridge A t1)
   -- HuberGradient._call
   | .gradHuber ps =>
       (if ps then .new nrm [x] (fun a => F.pwnorm (a 0))
@@ -118,7 +120,7 @@ def auxProg (F : Fns K) (A : AuxFns K) (P : Par K) : AuxId → Stmt K
       -- (per component, merged) gi[index] = xi.asarray()[index] / norm_arr[index]
       .set tmp [tmp, x, mask, nrm]
         (fun a i => if F.truthy (a 2 (F.bidx i)) then a 1 i / a 3 (F.bidx i) else a 0 i) ;;
-      bridge tmp
+      bridge A tmp
   -- GroupL1Gradient._call(x, out), exponent 2, unweighted
   | .gradGroupL1 =>
       .new nrm [x] (fun a => F.pwnorm (a 0)) ;;         -- pwnorm_x = functional.pointwise_norm(x)
